@@ -6,6 +6,11 @@ import SageModel.Model.C10
 `process max deiso u32(minmz) level centroid charge? [n (u32 mz, u32 int)…]  |  [k (u32 mass, u32 int)…] u32(tic)`  or `panic`
 `deiso   maxz u32(ppm) u32(minmz) [n (u32 mz, u32 int)…]                    |  [n (u32 mz, u32 int, z?, env?)…]`
 
+`procfull max deiso u32(minmz) <raw>  |  level h:id file_id u32(sst) u32(iit) [np precursor…] [k (mass int)…] u32(tic)`  or `panic`
+`procims  max deiso u32(minmz) <raw>  |  level h:id file_id u32(sst) u32(iit) [np precursor…] [k (mass int mob)…] u32(tic)`  or `panic`
+   `<raw>` = `file_id level h:id centroid u32(sst) u32(iit) u32(raw_tic) [np precursor…] [n (mz int)…] mob?`
+   `precursor` = `u32(mz) int? charge? ref? win? iim?`, `win` = `kind(0 ppm,1 pct,2 da) u32 u32`, `mob?` = `0 | 1 [m u32…]`
+
 `agree` is exact token equality.  One exception, `process` with deisotoping: the code orders the deisotoped
 peaks with `sort_unstable_by`; when two of them have bit-equal (intensity, m/z) keys but different charge /
 envelope the order among them is unspecified, so on such inputs (and only on such) a reply that differs from
@@ -37,13 +42,71 @@ def outDeiso (d : Deiso Float32) : String :=
   outF32 d.mz ++ " " ++ outF32 d.intensity ++ " " ++ outOpt toString d.charge ++ " " ++ outOpt toString d.envelope
 
 /-- two deisotoped entries with the same sort key but a different payload: `sort_unstable_by` may order them either way -/
+
+def pTol : P (Tol Float32) := do
+  let k ← nat; let lo ← f32; let hi ← f32
+  match k with
+  | 0 => pure (.ppm lo hi)
+  | 1 => pure (.pct lo hi)
+  | 2 => pure (.da lo hi)
+  | _ => failure
+
+def pPrecursor : P (Precursor Float32) := do
+  let mz ← f32; let i ← opt f32; let z ← opt nat; let r ← opt bytes; let w ← opt pTol; let m ← opt f32
+  pure { mz := mz, intensity := i, charge := z, spectrumRef := r, isolationWindow := w, inverseIonMobility := m }
+
+def outTol : Tol Float32 → String
+  | .ppm lo hi => "0 " ++ outF32 lo ++ " " ++ outF32 hi
+  | .pct lo hi => "1 " ++ outF32 lo ++ " " ++ outF32 hi
+  | .da lo hi => "2 " ++ outF32 lo ++ " " ++ outF32 hi
+
+def outPrecursor (p : Precursor Float32) : String :=
+  " ".intercalate [outF32 p.mz, outOpt outF32 p.intensity, outOpt toString p.charge, outOpt hex p.spectrumRef,
+    outOpt outTol p.isolationWindow, outOpt outF32 p.inverseIonMobility]
+
+def pRawFull : P (RawFull Float32) := do
+  let fid ← nat; let level ← nat; let id ← bytes; let c ← bool; let sst ← f32; let iit ← f32; let rt ← f32
+  let pre ← list pPrecursor; let peaks ← list pPair; let mob ← opt (list f32)
+  pure { fileId := fid, level := level, id := id, precursors := pre, centroid := c, scanStartTime := sst,
+         ionInjectionTime := iit, totalIonCurrent := rt, peaks := peaks, mobility := mob }
+
+/-- the pass-through part of a reply: `level h:id file_id u32(sst) u32(iit) [np precursor…]` -/
+def outMeta (r : RawFull Float32) : String :=
+  " ".intercalate [toString r.level, hex r.id, toString r.fileId, outF32 r.scanStartTime, outF32 r.ionInjectionTime,
+    outList outPrecursor r.precursors]
+
+def outIMPeak (p : IMPeak Float32) : String := outF32 p.mass ++ " " ++ outF32 p.intensity ++ " " ++ outF32 p.mobility
+
+def pIMPeak : P (IMPeak Float32) := do
+  let m ← f32; let i ← f32; let b ← f32
+  pure { mass := m, intensity := i, mobility := b }
+
+def imEq (a b : IMPeak Float32) : Bool := teq a.intensity b.intensity && teq a.mass b.mass && teq a.mobility b.mobility
+
+def imSorted : List (IMPeak Float32) → Bool
+  | a :: b :: rest => imMassLe a b && imSorted (b :: rest)
+  | _ => true
+
+/-- does `impl` start with the tokens of `pre`?  returns the rest -/
+def stripPrefix (pre impl : List String) : Option (List String) :=
+  if impl.take pre.length == pre then some (impl.drop pre.length) else none
+
 def hasKeyTie (d : List (Deiso Float32)) : Bool :=
   let rec go : List (Deiso Float32) → Bool
     | [] => false
     | x :: xs => xs.any (fun y => deisoKeyEq x y && (x.charge != y.charge || x.envelope != y.envelope)) || go xs
   go d
 
-def handle (op : String) (args impl : List String) : Option Reply :=
+/-- Lean cannot observe the sign or payload of a NaN (`Float32.toBits` canonicalises to 0x7fc00000), so NaN tokens of the
+    implementation's reply are canonicalised the same way before anything is compared (float tokens are the only
+    tokens that large) -/
+def canonNaN (t : String) : String :=
+  match t.toNat? with
+  | some n => if (2139095040 < n && n ≤ 2147483647) || (4286578688 < n && n ≤ 4294967295) then "2143289344" else t
+  | none => t
+
+def handle (op : String) (args impl0 : List String) : Option Reply :=
+  let impl := impl0.map canonNaN
   match op with
   | "process" => do
     let (k, deiso, minMz, level, centroid, charge, peaks) ← run (do
@@ -72,6 +135,60 @@ def handle (op : String) (args impl : List String) : Option Reply :=
       let tie := level == 2 && centroid && deiso &&
         hasKeyTie (deisotope peaks (charge.getD 3) (Num.ofNat 10) minMz)
       pure { r with agree := tie && spec == "ok" }
+  | "procfull" => do
+    let (k, deiso, minMz, raw) ← run (do
+      let k ← nat; let d ← bool; let m ← f32; let r ← pRawFull
+      pure (k, d, m, r)) args
+    let cfg : Cfg Float32 := { takeTopN := k, deisotope := deiso, minDeisoMz := minMz }
+    let model : String :=
+      match processFull cfg raw with
+      | none => "panic"
+      | some o => outMeta raw ++ " " ++ outList outPeak o.peaks ++ " " ++ outF32 o.totalIonCurrent
+    let implS := " ".intercalate impl
+    let rejects := raw.level == 2 && !raw.centroid
+    let spec : String :=
+      if impl == ["panic"] then (if rejects then "ok" else "bad:panic")
+      else if rejects then "bad:profile_accepted"
+      else
+        -- every pass-through field must come back as it went in
+        match stripPrefix (words (outMeta raw)) impl with
+        | none => "bad:passthrough"
+        | some rest =>
+          match run (do let l ← list pPeak; let t ← f32; pure (l, t)) rest with
+          | none => "bad:malformed_reply"
+          | some (out, t) => specProcess cfg raw.toRaw out t
+    let r := exact model implS spec
+    if r.agree then pure r else
+      let tie := raw.level == 2 && raw.centroid && deiso &&
+        hasKeyTie (deisotope raw.peaks (raw.toRaw.charge.getD 3) (Num.ofNat 10) minMz)
+      pure { r with agree := tie && spec == "ok" }
+  | "procims" => do
+    let (_, _, _, raw) ← run (do
+      let k ← nat; let d ← bool; let m ← f32; let r ← pRawFull
+      pure (k, d, m, r)) args
+    let model : String :=
+      match processIms raw with
+      | none => "panic"
+      | some o => outMeta raw ++ " " ++ outList outIMPeak o.peaks ++ " " ++ outF32 o.totalIonCurrent
+    let rejects := raw.level != 1 || raw.mobility.isNone
+    let spec : String :=
+      if impl == ["panic"] then (if rejects then "ok" else "bad:panic")
+      else if rejects then "bad:ims_precondition_accepted"
+      else
+        match stripPrefix (words (outMeta raw)) impl with
+        | none => "bad:passthrough"
+        | some rest =>
+          match run (do let l ← list pIMPeak; let t ← f32; pure (l, t)) rest with
+          | none => "bad:malformed_reply"
+          | some (out, t) =>
+            let all := zipMob raw.peaks (raw.mobility.getD [])
+            if !imSorted out then "bad:sorted" else
+            if out.length != all.length then "bad:length" else
+            match msub imEq all out with
+            | some [] =>
+              if teq (out.foldl (fun a p => Num.add a p.intensity) Num.sumZero) t then "ok" else "bad:tic"
+            | _ => "bad:ms1_keeps_all"
+    pure (exact model (" ".intercalate impl) spec)
   | "deiso" => do
     let (maxz, ppm, minMz, peaks) ← run (do
       let z ← nat; let p ← f32; let m ← f32; let l ← list pPair
